@@ -67,11 +67,15 @@ pub struct Stats {
     pub samples: Vec<serde_json::Value>,
     pub panics: u64,
     pub known_hits: BTreeMap<String, (u64, &'static str, u64)>,
+    /// Order-independent digest of (run seed, event hash) over all runs: equal between two
+    /// processes (any worker count) exactly when every run produced the same event history.
+    pub agg_hash: u64,
 }
 
 impl Stats {
     fn merge(&mut self, o: Stats) {
         self.evaluations += o.evaluations;
+        self.agg_hash = self.agg_hash.wrapping_add(o.agg_hash);
         for (k, v) in o.per_family {
             *self.per_family.entry(k).or_insert(0) += v;
         }
@@ -235,6 +239,7 @@ pub fn explore(o: &CheckOpts, fams: &[Family], known: &known::KnownFile) -> (Sta
                         st.inconclusive += 1;
                     }
                     st.panics += out.hist.panics.len() as u64;
+                    st.agg_hash = st.agg_hash.wrapping_add(crate::util::h3(seed, out.hist.hash.0, 0xA66));
                     let shape = analysis::trace_shape(&out.hist);
                     st.shapes_all.insert(shape);
                     if res.relevant {
@@ -365,6 +370,7 @@ pub fn check(o: &CheckOpts, verif_dir: &std::path::Path) -> i32 {
             "reach_probes_runs": st.probe_runs,
             "components_real": ["UtpSocket dispatcher task", "per-connection VirtualSocket task", "UtpStreamReadHalf/WriteHalf", "tokio mpsc/oneshot/select/time (paused clock)", "parking_lot", "ringbuf", "CUBIC", "RTO estimator", "recovery", "MTU probing"],
             "components_stubbed": families::stubs(&o.property),
+            "aggregate_event_hash": format!("{:016x}", st.agg_hash),
             "known_finding_hits": st.known_hits.iter().map(|(k, v)| (k.clone(), v.0)).collect::<BTreeMap<_, _>>(),
             "new_violation_replays": replay_paths,
             "library_panics": st.panics,
@@ -377,7 +383,7 @@ pub fn check(o: &CheckOpts, verif_dir: &std::path::Path) -> i32 {
     std::fs::create_dir_all(evp.parent().unwrap()).ok();
     std::fs::write(&evp, serde_json::to_string_pretty(&ev).unwrap()).expect("write evidence");
     println!(
-        "{} {}: runs={} relevant={} nontrivial_shapes={} states={} sim_time={:.0}s wall={:.1}s runs/h={:.0} violations={} known_hits={}",
+        "{} {}: runs={} relevant={} nontrivial_shapes={} states={} sim_time={:.0}s wall={:.1}s runs/h={:.0} violations={} known_hits={} agg={:016x}",
         o.property,
         o.tier.name(),
         st.evaluations,
@@ -388,7 +394,8 @@ pub fn check(o: &CheckOpts, verif_dir: &std::path::Path) -> i32 {
         wall,
         runs_per_hour,
         new_violations,
-        st.known_hits.values().map(|v| v.0).sum::<u64>()
+        st.known_hits.values().map(|v| v.0).sum::<u64>(),
+        st.agg_hash
     );
     exit
 }
